@@ -26,4 +26,33 @@ func init() {
 	mutant("C16", "connect-gets-request-rules", "C16.R5", "command/run/run.go", "if req.Method == http.MethodConnect {\n\t\t\t\treturn connectHeaders.ModifyRequest(req)", "if req.Method != http.MethodConnect {\n\t\t\t\treturn connectHeaders.ModifyRequest(req)")
 	mutant("C16", "response-rules-on-connect", "C16.R5", "command/run/run.go", "if req := resp.Request; req != nil && req.Method == http.MethodConnect {\n\t\t\t\treturn nil\n\t\t\t}\n", "")
 	mutant("C16", "name-regex-unanchored", "C16.R4", "header/header.go", "`^[A-Za-z0-9-]+$`", "`^[A-Za-z0-9-]+`")
+
+	// ---- C09
+	const relay = "internal/martian/h2/relay.go"
+	const qf = "internal/martian/h2/queued_frames.go"
+	mutant("C09", "unfix-credit-data-only", "C09.R5", relay, "n := f.Header().Length", "n := uint32(len(f.Data()))")
+	mutant("C09", "gate-ignores-stream-window", "C09.R1", relay, "if f.flowControlSize() > *connectionWindowSize || f.flowControlSize() > w.windowSize {", "if f.flowControlSize() > *connectionWindowSize {")
+	mutant("C09", "gate-no-connection-debit", "C09.R1", relay, "\t\t*connectionWindowSize -= f.flowControlSize()\n", "")
+	mutant("C09", "second-sender", "C09.R1", relay, "\tw.enqueue(f)\n\tw.emitEligibleFrames(r.output, &r.connectionWindowSize)\n\tr.flowMu.Unlock()\n}", "\tif f.flowControlSize() == 0 && w.queue.Len() == 0 {\n\t\tr.output <- f\n\t\tr.flowMu.Unlock()\n\t\treturn\n\t}\n\tw.enqueue(f)\n\tw.emitEligibleFrames(r.output, &r.connectionWindowSize)\n\tr.flowMu.Unlock()\n}")
+	mutant("C09", "data-fcs-zero", "C09.R2", qf, "func (f *queuedDataFrame) flowControlSize() int {\n\treturn len(f.data)\n}", "func (f *queuedDataFrame) flowControlSize() int {\n\treturn 0\n}")
+	mutant("C09", "unlocked-window-update", "C09.R3", relay, "\t\tr.flowMu.Lock()\n\t\tr.connectionWindowSize += int(f.Increment)\n\t\tr.flowMu.Unlock()\n", "\t\tr.connectionWindowSize += int(f.Increment)\n")
+	mutant("C09", "settings-delta-on-connection", "C09.R4", relay, "\tr.initialWindowSize = v\n", "\tr.initialWindowSize = v\n\tr.connectionWindowSize += delta\n")
+	mutant("C09", "window-update-wrong-relay", "C09.R4", relay, "\t\tr.peer.updateWindow(f)", "\t\tr.updateWindow(f)")
+	mutant("C09", "max-frame-size-wrong-setting", "C09.R4", relay, "\t\t\t\tcase http2.SettingMaxFrameSize:\n\t\t\t\t\tr.peer.updateMaxFrameSize(s.Val)", "\t\t\t\tcase http2.SettingMaxHeaderListSize:\n\t\t\t\t\tr.peer.updateMaxFrameSize(s.Val)")
+	mutant("C09", "data-not-clamped", "C09.R6", relay, "\t\tif nextPayloadLength > maxPayloadLength {\n\t\t\tnextPayloadLength = maxPayloadLength\n\t\t}\n", "\t\tif nextPayloadLength > 2*maxPayloadLength {\n\t\t\tnextPayloadLength = 2 * maxPayloadLength\n\t\t}\n")
+	mutant("C09", "priority-room-forgotten", "C09.R6", relay, "\tif !priority.IsZero() {\n\t\tmaxHeaderFragmentLength -= headersPriorityMetadataLength\n\t}\n", "")
+	mutant("C09", "no-rescan-after-settings", "C09.R7,C10.R4", relay, "\t// eligible frames.\n\tr.sendQueuedFramesUnderWindowSize()\n", "")
+	mutant("C09", "no-emit-after-stream-credit", "C09.R7,C10.R4", relay, "\tw.windowSize += int(f.Increment)\n\tw.emitEligibleFrames(r.output, &r.connectionWindowSize)\n", "\tw.windowSize += int(f.Increment)\n")
+
+	// ---- C10
+	mutant("C10", "unfix-continuation-endstream", "C10.R1,C10.R5", relay, "return s.Header(headers, h.streamEnded, h.priority)", "return s.Header(headers, true, h.priority)")
+	mutant("C10", "unfix-preface-read", "C10.R7", "internal/martian/h2/h2.go", "if _, err := io.ReadFull(client, preface); err != nil {", "if _, err := client.Read(preface); err != nil {")
+	mutant("C10", "endstream-on-every-fragment", "C10.R1", relay, "f := &queuedDataFrame{id, streamEnded && len(data) == 0, nextPayload}", "f := &queuedDataFrame{id, streamEnded, nextPayload}")
+	mutant("C10", "rst-dropped", "C10.R2", relay, "\tcase *http2.RSTStreamFrame:\n\t\terr = r.processor(f.StreamID).RSTStream(f.ErrCode)\n", "\tcase *http2.RSTStreamFrame:\n")
+	mutant("C10", "priority-case-removed", "C10.R2", relay, "\tcase *http2.PriorityFrame:\n\t\terr = r.processor(f.StreamID).Priority(f.PriorityParam)\n", "")
+	mutant("C10", "zero-cost-jumps-queue", "C10.R3", relay, "func (w *outputBuffer) enqueue(f queuedFrame) {\n\tw.queue.PushBack(f)", "func (w *outputBuffer) enqueue(f queuedFrame) {\n\tif f.flowControlSize() == 0 {\n\t\tw.queue.PushFront(f)\n\t\treturn\n\t}\n\tw.queue.PushBack(f)")
+	mutant("C10", "continuation-endheaders-first", "C10.R3", qf, "func (f *queuedHeaderFrame) send(dest *http2.Framer) error {\n\tif err := dest.WriteHeaders(http2.HeadersFrameParam{\n\t\tStreamID:      f.streamID,\n\t\tBlockFragment: f.chunks[0],\n\t\tEndStream:     f.endStream,\n\t\tEndHeaders:    len(f.chunks) <= 1,", "func (f *queuedHeaderFrame) send(dest *http2.Framer) error {\n\tif err := dest.WriteHeaders(http2.HeadersFrameParam{\n\t\tStreamID:      f.streamID,\n\t\tBlockFragment: f.chunks[0],\n\t\tEndStream:     f.endStream,\n\t\tEndHeaders:    len(f.chunks) <= 2,")
+	mutant("C10", "header-buffer-not-reset", "C10.R5", relay, "\t\t\tr.headerBuffer.Reset()\n\t\t\tr.headerBuffer.Write(f.HeaderBlockFragment())\n\t\t\tr.continuationState = &pushPromiseContinuation{f.PromiseID}", "\t\t\tr.headerBuffer.Write(f.HeaderBlockFragment())\n\t\t\tr.continuationState = &pushPromiseContinuation{f.PromiseID}")
+	mutant("C10", "ping-ack-lost", "C10.R6", relay, "err = r.dest.WritePing(f.IsAck(), f.Data)", "err = r.dest.WritePing(false, f.Data)")
+	mutant("C10", "settings-filtered", "C10.R6", relay, "\t\t\t\tcase http2.SettingMaxFrameSize:\n\t\t\t\t\tr.peer.updateMaxFrameSize(s.Val)\n", "\t\t\t\tcase http2.SettingMaxFrameSize:\n\t\t\t\t\tr.peer.updateMaxFrameSize(s.Val)\n\t\t\t\t\treturn nil\n")
 }
